@@ -135,9 +135,13 @@ def coq_files():
     return [os.path.relpath(f, COQ) for f in fs]
 
 
-def build_coq(targets=None, timeout=3000):
-    """Full .vo build (no -vos) of the requested targets and everything they depend on."""
+def build_coq(targets=None, timeout=3000, pre=None):
+    """Full .vo build (no -vos) of the requested targets and everything they depend on.
+    `pre`: optional callable run under the same lock before the build (a translator that
+    regenerates a .v file, e.g. tools/gen_wire.py for C19)."""
     with Lock("coq"):
+        if pre is not None:
+            pre()
         files = coq_files()
         listing = "\n".join(files)
         stamp = os.path.join(COQ, ".files")
